@@ -83,6 +83,8 @@ pub struct ServerSpec {
     /// per endpoint: user token ids (None = all) and password security policy
     pub endpoint_tokens: Option<Vec<Vec<String>>>,
     pub endpoint_password_policy: Option<Vec<Option<String>>>,
+    /// X.509 users: (token id, user name, fixture identity whose certificate identifies the user)
+    pub x509_users: Vec<(String, String, String)>,
 }
 
 impl Default for ServerSpec {
@@ -103,6 +105,7 @@ impl Default for ServerSpec {
             hello_timeout: 5,
             endpoint_tokens: None,
             endpoint_password_policy: None,
+            x509_users: Vec::new(),
         }
     }
 }
@@ -113,6 +116,9 @@ pub fn build_server(spec: &ServerSpec) -> Server {
         token_ids.push(opcua::server::config::ANONYMOUS_USER_TOKEN_ID.to_string());
     }
     for (id, _, _) in spec.users.iter() {
+        token_ids.push(id.clone());
+    }
+    for (id, _, _) in spec.x509_users.iter() {
         token_ids.push(id.clone());
     }
     let mut b = ServerBuilder::new()
@@ -146,6 +152,24 @@ pub fn build_server(spec: &ServerSpec) -> Server {
                 user: user.clone(),
                 pass: pass.clone(),
                 x509: None,
+                thumbprint: None,
+            },
+        );
+    }
+    for (id, user, ident) in spec.x509_users.iter() {
+        // the user's certificate is read from disk when the server is created
+        let dir = server_pki(spec.key_bits).join("users");
+        let _ = std::fs::create_dir_all(&dir);
+        let path = dir.join(format!("{}.der", ident));
+        if !path.exists() {
+            let _ = std::fs::write(&path, wire::identity(2048, ident).cert.to_der().expect("der"));
+        }
+        b = b.user_token(
+            id.clone(),
+            ServerUserToken {
+                user: user.clone(),
+                pass: None,
+                x509: Some(path.to_string_lossy().to_string()),
                 thumbprint: None,
             },
         );
@@ -217,6 +241,8 @@ pub struct Conn {
     pub bytes_received: u64,
     /// every (request id, message) the server delivered on this connection, in order
     pub eof: bool,
+    /// secure channel id named by the header of the last chunk the server sent
+    pub last_chunk_channel_id: u32,
 }
 
 impl Conn {
@@ -250,6 +276,7 @@ impl Conn {
             bytes_sent: 0,
             bytes_received: 0,
             eof: false,
+            last_chunk_channel_id: 0,
         }
     }
 
@@ -436,6 +463,7 @@ impl Conn {
                         Ok(h) => h,
                         Err(e) => return Recv::Bad(e),
                     };
+                    self.last_chunk_channel_id = hdr.secure_channel_id;
                     match hdr.is_final {
                         MessageIsFinalType::Intermediate => {
                             self.pending.push(chunk);
@@ -594,13 +622,18 @@ impl Conn {
 
     /// ActivateSession with a given client signature (a replayed request reuses the old one).
     pub async fn activate_session_signed(&mut self, token: ExtensionObject, client_signature: SignatureData) -> Recv {
+        self.activate_session_full(token, client_signature, SignatureData::null()).await
+    }
+
+    /// ActivateSession with given client and user token signatures.
+    pub async fn activate_session_full(&mut self, token: ExtensionObject, client_signature: SignatureData, user_token_signature: SignatureData) -> Recv {
         let req: SupportedMessage = ActivateSessionRequest {
             request_header: self.header(),
             client_signature,
             client_software_certificates: None,
             locale_ids: None,
             user_identity_token: token,
-            user_token_signature: SignatureData::null(),
+            user_token_signature,
         }
         .into();
         let r = self.call(req).await;
